@@ -484,7 +484,10 @@ class Bits:
         else:
             # We can't in general hash the whole bitstring (it could take hours!)
             # So instead take some bits from the start and end.
-            return hash(((self[:800] + self[-800:]).tobytes(), len(self)))
+            # The slices are absolute (MSB0) so that the hash does not depend on the bit numbering mode.
+            ends = self._absolute_slice(0, 800)
+            ends._addright(self._absolute_slice(len(self) - 800, len(self)))
+            return hash((ends.tobytes(), len(self)))
 
     def __bool__(self) -> bool:
         """Return False if bitstring is empty, otherwise return True."""
